@@ -6,6 +6,7 @@
 From Coq Require Import ZArith List Bool.
 Require Import SP.Base.PyRt SP.Gen.WorkingHoursCy SP.Gen.WorkingHoursPy SP.Spec.Hours SP.Proofs.HoursProofs
                SP.Model.Sched SP.Proofs.SchedInv SP.Model.Calendar SP.Model.SchedIO SP.Proofs.CalendarProofs.
+Require Import SP.Model.Alap SP.Proofs.AlapProofs.
 Import ListNotations.
 Open Scope Z_scope.
 
@@ -41,3 +42,11 @@ Example C02_example :
   hours_spec [(0, [((22, 0), (6, 0))])] 1 (3 * 60) = true /\
   hours_spec [(0, [((22, 0), (6, 0))])] 0 (3 * 60) = false.
 Proof. repeat split. Qed.
+
+(* ---- backward (ALAP) mode: the project record is read backwards (Model/Alap.v: t_deps = successor edges,
+   t_pin = own end, t_lb = earliest deadline of the enclosing containers, n = p_upper slots) and the schedule
+   is the mirror image of the forward schedule of the mirrored project *)
+Theorem C02_alap : forall p b, In b (alap_bookings p) ->
+  (b_slot b < p_upper p)%nat /\ r_work (res_of p (b_res b)) (b_slot b) = true.
+Proof. exact alap_working. Qed.
+Print Assumptions C02_alap.
